@@ -67,6 +67,7 @@ def run(chk):
         pe = P.evaluator({'len': ln, 'locals': {hp: handtok}})
         cons = [p for p in paths if P.consistent(p, pe)]
         for p in cons:
+            chk.focus(p, pe)
             v = p.end[1] if p.end[0] == 'return' else None
             good = isinstance(v, ast.Call) and isinstance(v.func, ast.Attribute) and v.func.attr == 'available_cards' and len(v.args) + len(v.keywords) == 2
             got_h = got_f = NOVALUE
@@ -96,6 +97,7 @@ def run(chk):
                 for p in P.summ.paths(cls, meth, dyn=cls):
                     if not P.consistent(p, pe):
                         continue
+                    chk.focus(p, pe)
                     if want == 'dummy' and not known:
                         chk.require(p.end[0] == 'raise', 'C06.R2', w2, q2, f'{meth} with hidden dummy',
                                     'asking for dummy\'s playable cards before disclosure raises', 'hidden dummy hand is used')
